@@ -292,6 +292,53 @@ Theorem C10_layered_treeHasher_is_shash :
     tree_hasher hempty hleaf hbranch (flatten 0 st) = Some (shash hempty hleaf hbranch st).
 Proof. exact @tree_hasher_shash. Qed.
 
+(* ... and therefore the variant of the layered model that calls the flat loops (and re-decodes their output, as the Go code
+   re-reads what it wrote) IS the layered model: same result on every store, root and batch, no hypothesis. *)
+Theorem C10_layered_update_flat_is_layered :
+  forall (V Hsh : Type) (hempty : Hsh) (hleaf : key -> V -> Hsh) (hbranch : Hsh -> Hsh -> Hsh) (heqb : Hsh -> Hsh -> bool)
+         (h lv : nat) (sr : @store V Hsh * Hsh) (ops : list (@op V)),
+    layered_update_flat hempty hleaf hbranch heqb h lv sr ops = layered_update hempty hleaf hbranch heqb h lv sr ops.
+Proof. exact @layered_update_flat_eq. Qed.
+
+(* SUB-TREE BYTE ENCODING (subtree.go encode / newSubTree; SMT/LayeredCodec.v).  Decoding an encoded sub-tree gives it back
+   provided it has 1..256 bottom nodes (length byte = count - 1, a uint8), every leaf key has 8*kl bits, EVERY LEAF VALUE HAS
+   32 BYTES and every stub hash has 32 bytes; and the sub-tree the layered model stores for a trie whose keys have 8*kl bits
+   and whose values have 32 bytes, with a 32-byte branch hash and sub-tree height <= 8, satisfies these conditions. *)
+From LE Require Import SMT.LayeredCodec.
+Theorem C10_layered_subtree_codec_roundtrip :
+  forall (kl : nat) (c : bflat), 1 <= length c <= 256 -> Forall (fun e => node_ok kl (snd e)) c ->
+    dec_bytes kl (enc_bytes c) = Some c.
+Proof. exact dec_enc. Qed.
+Theorem C10_layered_stored_entry_decodes :
+  forall (hempty : list N) (hleaf : key -> list N -> list N) (hbranch : list N -> list N -> list N),
+    (forall a b, length (hbranch a b) = 32) ->
+    forall (kl h : nat) (t : @T (list N)), h <= 8 -> kv_ok kl t ->
+      dec_bytes kl (enc_bytes (flatten 0 (trunc hempty hleaf hbranch h t))) = Some (flatten 0 (trunc hempty hleaf hbranch h t)).
+Proof. exact stored_entry_decodes. Qed.
+
+(* trie.Prove THROUGH THE STORE (SMT/LayeredProve.v: generateQueryProof reading sub-trees with getSubtree, recursing through
+   the stubs, then the same sort + calculateSiblingHashes merge).  After every history from the empty trie the code-shaped
+   prover succeeds for every list of query keys and returns exactly [prove t keys] (SMT/Prove.v) for the reference trie t read
+   back from the store (well-formed, holding exactly the map of the history) — so C10_verify_sound*, C10_node_claims and
+   C10_prove_verify_complete_single_key_partial, stated for [prove] / tries, hold for the prover that reads the store. *)
+From LE Require Import SMT.LayeredProve.
+Theorem C10_layered_prove_refines :
+  forall (Hsh : Type) (hempty : Hsh) (hleafb : list N -> list N -> Hsh) (hbranch : Hsh -> Hsh -> Hsh) (heqb : Hsh -> Hsh -> bool),
+    (forall a b, heqb a b = true <-> a = b) ->
+    (forall a b c d, hbranch a b = hbranch c d -> a = c /\ b = d) ->
+    (forall k v k' v', length k = length k' -> Prove.hleaf hleafb k v = Prove.hleaf hleafb k' v' -> k = k' /\ v = v') ->
+    (forall k v a b, Prove.hleaf hleafb k v <> hbranch a b) ->
+    (forall k v, Prove.hleaf hleafb k v <> hempty) ->
+    (forall a b, hbranch a b <> hempty) ->
+    forall (h lv' : nat) (bs : list (list (@op (list N)))) (keys : list (list N)), 0 < h -> keys_ok (S lv' * h) bs ->
+    exists s t,
+      layered_history hempty (Prove.hleaf hleafb) hbranch heqb h (S lv') ([], hempty) bs =
+        Some (s, hash hempty (Prove.hleaf hleafb) hbranch t) /\
+      wf (S lv' * h) 0 t /\ Permutation (tomap t) (fold_left map_batch bs []) /\
+      lprove hempty hleafb hbranch heqb h (S lv') s (hash hempty (Prove.hleaf hleafb) hbranch t) keys =
+        Some (prove hempty hleafb hbranch heqb t keys).
+Proof. exact @layered_prove_refines. Qed.
+
 (* NON-VACUITY.  The free hash xh (SMT/LayeredEx.v) satisfies every hash hypothesis above (so the theorems apply to it), and on 4-bit keys
    a history with inserts, an overwrite, and deletions that empty a lower sub-tree runs on the layered model with
    sub-trees of height 2 (two layers) and of height 1 (four layers): same root as the reference trie, the trie read back
